@@ -31,7 +31,7 @@ CHECKS = {
         "engine": "simsched",
         "technique": "deterministic simulation: seeded baton-passing thread scheduler over real threads (statement-level pre-emption, SimLock), query histories with cache-aliasing keys; oracle = the same query evaluated alone in a fresh process, plus stated object identities",
         "category": "exploration",
-        "text": "Seeded search over query histories and thread schedules against every shared cache and lazy singleton reachable from the public API (year-start caches, the global Hebrew cache, the 512-slot zone-interval cache, the provider's lazy zone map, provider/UTC/calendar/era singletons, the format-info cache with a shrunken size knob, per-format-info lazy tables and pattern caches, culture tables, thread-local current culture). Keys are generated to alias (years 1024 apart, 32-day periods 512 apart, more cultures than cache slots). Every answer of every run is compared with the answer of the same query evaluated alone in a fresh fork (empty history, single thread); zone-interval answers are additionally compared with the underlying (uncached) zone; identities promised by the statement are checked across all objects a run obtained; deadlocks are detected exactly. Sampling, not proof.",
+        "text": "Seeded search over query histories and thread schedules against every shared cache and lazy singleton reachable from the public API (year-start caches, the global Hebrew cache, the 512-slot zone-interval cache, the provider's lazy zone map, provider/UTC/calendar/era singletons, the format-info cache with a shrunken size knob, per-format-info lazy tables and pattern caches, culture tables, thread-local current culture). Keys are generated to alias (years 1024 apart, 32-day periods 512 apart, more cultures than cache slots). Every answer of every run is compared with the answer of the same query evaluated alone in a fresh fork (empty history, single thread); zone-interval answers are additionally compared with the underlying (uncached) zone; identities promised by the statement are checked across all objects a run obtained; deadlocks are detected exactly. Two search modes: seeded random programs x strategies (uniform, site-biased, PCT, serial), and a systematic single-pre-emption sweep (for 60/500 pairs of queries that meet in one piece of shared state, query A is pre-empted once at every scheduling point that lies in a cache / lazy-singleton file, by a complete run of query B). Instants are centred on real zone transitions (including zones with two transitions in one cache period, found from the data), cultures include caller-customised mutable ones. Sampling, not proof.",
         "note": "Trusted: CPython thread/trace machinery; cold single-threaded evaluation as reference. Pre-emption only between statements and at lock operations; four pure decoding/helper files are not pre-emption points (partial-order reduction, DESIGN.md 3.1). Races inside C code (dict, ICU) are out of reach.",
         "ref": "DESIGN.md section 4 (C13), 3.1",
     },
@@ -39,7 +39,7 @@ CHECKS = {
         "engine": "simio",
         "technique": "deterministic fault injection on the input stream: enumerated truncation points + seeded k<=4 byte substitute/insert/delete plans over the real database files; exception-type oracle, sys.monitoring work budget, memory limit",
         "category": "fault_enumeration",
-        "text": "Every fault plan (truncate at offset t, or up to four byte edits) is applied to one of the two real .nzd files and fed through a fault-injecting stream to from_stream, id listing, provider construction and zone fetches (the lazily parsed zone bodies that the damage touches, their aliases, new ids, a sample of others). Each operation must return or raise the documented invalid-data error; 'promptly' is a deterministic count of function entries and loop iterations bounded at 20x the intact-file cost, memory is bounded by RLIMIT_AS and a tracemalloc peak bound. The thorough tier enumerates every prefix of both files (259,704 truncations) exhaustively and samples ~600k corruption plans; the quick tier covers all structural boundaries and ~3.4k seeded corruptions.",
+        "text": "Every fault plan (truncate at offset t, or up to four byte edits) is applied to one of the two real .nzd files and fed through a fault-injecting stream to from_stream, id listing, provider construction and zone fetches (the lazily parsed zone bodies that the damage touches, their aliases, new ids, a sample of others). Each operation must return or raise the documented invalid-data error; 'promptly' is a deterministic count of function entries and loop iterations bounded at 20x the intact-file cost, memory is bounded by RLIMIT_AS and a tracemalloc peak bound. Inside the k<=4 corruption space, structured classes reach what uniform sampling cannot: varint inflation of lengths/counts, neighbour-copy byte values, reference-table mutations of the alias map (cycles, dangling, duplicate), 'UTC..'-like id rewrites, a sweep of small marker values over the last bytes of zone bodies, and a pinned regression corpus. The thorough tier enumerates every prefix of both files (259,704 truncations) and the zone-tail sweep over every zone exhaustively and samples ~250k corruption plans; the quick tier covers all structural boundaries, a sample of the sweep and ~3.4k seeded corruptions.",
         "note": "Trusted: the stream has BufferedIOBase semantics (no OSError, no short read before EOF); C-level loops are only covered by a wall watchdog; the k<=4 corruption space (~1e20 plans) is sampled, stratified by structural region, not enumerated.",
         "ref": "DESIGN.md section 4 (C20), 3.3",
     },
